@@ -760,6 +760,28 @@ func ReceiverState(p *load.Prog, r *oblig.Report, rule, pkg, typeName string, fu
 						n++
 						r.Bad(rule, "receiver-state:"+load.FuncName(f), p.Pos(in.Pos()), "map update inside the "+typeName+" receiver: a later call on the same builder sees state left by this one")
 					}
+				case ssa.CallInstruction:
+					// a counter or a concurrent map kept in the receiver is state all the same, however atomically it is updated
+					cc := v.Common()
+					callee := cc.StaticCallee()
+					if callee == nil || callee.Pkg == nil || len(cc.Args) == 0 || !derived[cc.Args[0]] {
+						continue
+					}
+					pkgPath, name := callee.Pkg.Pkg.Path(), callee.Name()
+					writes := false
+					switch pkgPath {
+					case "sync/atomic":
+						writes = name != "Load" && !strings.HasPrefix(name, "Load")
+					case "sync":
+						switch name {
+						case "Store", "Delete", "LoadOrStore", "LoadAndDelete", "Swap", "CompareAndSwap", "CompareAndDelete", "Clear", "Do":
+							writes = true
+						}
+					}
+					if writes {
+						n++
+						r.Bad(rule, "receiver-state:"+load.FuncName(f), p.Pos(in.Pos()), "call of "+pkgPath+"."+name+" on a field of the "+typeName+" receiver: a later or concurrent call on the same builder sees state left by this one")
+					}
 				}
 			}
 		}
